@@ -275,8 +275,8 @@ fn main() {
         "scenarios": per_scenario,
         "violation_classes": ctx.violation_count(),
     });
-    let _ = std::fs::create_dir_all("/verif/evidence");
-    std::fs::write("/verif/evidence/C09.loom.json", serde_json::to_string_pretty(&cov).unwrap()).expect("write loom evidence");
+    let _ = std::fs::create_dir_all("evidence");
+    std::fs::write("evidence/C09.loom.json", serde_json::to_string_pretty(&cov).unwrap()).expect("write loom evidence");
     println!("C09 loom: {} schedules over {} scenarios, preemption bound {}, {} distinct outcomes, {} violation class(es)", total_execs, scenarios.len(), bound, outcomes_all.len(), ctx.violation_count());
     ctx.finish_quiet();
 }
